@@ -60,6 +60,9 @@ pub struct History {
     /// directory mode with `src/sub` being a symbolic link to a directory outside `src`
     #[serde(default)]
     pub symlinked_subdir: bool,
+    /// the build script is run with the crate root as working directory and hands relative paths to `Compile`
+    #[serde(default)]
+    pub relative_paths: bool,
     pub directory: bool,
     pub explicit_dest: bool,
     pub format: bool,
@@ -74,6 +77,7 @@ pub fn build(bytes: &[u8]) -> History {
     let explicit_dest = !directory && src.chance(128);
     let format = src.chance(50);
     let symlinked_subdir = directory && nfiles >= 2 && src.chance(64);
+    let relative_paths = src.chance(100);
     let n = src.range(2, 24);
     let mut ops = vec![Op::EditValid(0, src.pick(VALID.len()))];
     for i in 1..nfiles {
@@ -103,7 +107,7 @@ pub fn build(bytes: &[u8]) -> History {
         });
     }
     ops.push(Op::Run);
-    History { symlinked_subdir, directory, explicit_dest, format, nfiles, ops }
+    History { symlinked_subdir, relative_paths, directory, explicit_dest, format, nfiles, ops }
 }
 
 fn lib_code(text: &str) -> Option<String> {
@@ -167,6 +171,15 @@ fn mtime(p: &Path) -> Option<std::time::SystemTime> {
 }
 
 pub fn execute(h: &History, root: &Path) -> Result<(bool, u64), Failure> {
+    let home = std::env::current_dir().ok();
+    let r = execute_inner(h, root);
+    if let Some(home) = home {
+        let _ = std::env::set_current_dir(home);
+    }
+    r
+}
+
+fn execute_inner(h: &History, root: &Path) -> Result<(bool, u64), Failure> {
     let _ = std::fs::remove_dir_all(root);
     if h.symlinked_subdir {
         std::fs::create_dir_all(root.join("src")).unwrap();
@@ -240,9 +253,20 @@ pub fn execute(h: &History, root: &Path) -> Result<(bool, u64), Failure> {
             Op::Run => {
                 runs += 1;
                 let before: Vec<(Option<Vec<u8>>, Option<std::time::SystemTime>)> = files.iter().map(|f| (std::fs::read(&f.dest).ok(), mtime(&f.dest))).collect();
-                let mut c = if h.directory { Compile::directory(root.join("src")) } else { Compile::file(&files[0].grammar) };
+                // what the build script passes: absolute paths, or paths relative to its working directory (the crate root)
+                let arg = |p: &Path| -> PathBuf {
+                    if h.relative_paths {
+                        p.strip_prefix(root).map(|x| x.to_path_buf()).unwrap_or_else(|_| p.to_path_buf())
+                    } else {
+                        p.to_path_buf()
+                    }
+                };
+                if h.relative_paths {
+                    std::env::set_current_dir(root).unwrap();
+                }
+                let mut c = if h.directory { Compile::directory(arg(&root.join("src"))) } else { Compile::file(arg(&files[0].grammar)) };
                 if h.explicit_dest {
-                    c = c.destination(&files[0].dest);
+                    c = c.destination(arg(&files[0].dest));
                 }
                 if h.format {
                     c = c.format();
@@ -361,6 +385,9 @@ pub fn run(seed: u64, cases: u32, out: &str, workdir: &str) {
                 }
                 if h.symlinked_subdir {
                     classes.push("symlinked_subdirectory");
+                }
+                if h.relative_paths {
+                    classes.push("relative_paths");
                 }
                 if h.ops.iter().any(|o| matches!(o, Op::EditInvalid(_, k) if *k >= INVALID.len())) {
                     classes.push("non_utf8_grammar_file");
